@@ -851,6 +851,11 @@ func (DefaultAssertionMaker) MakeAssertion(req *IdpAuthnRequest, session *Sessio
 	return nil
 }
 
+// canonicalWriteSettings makes etree write a character reference for carriage
+// returns in text nodes. Written raw, an XML parser normalizes them to line
+// feeds, which alters the value and invalidates the signature computed over it.
+var canonicalWriteSettings = etree.WriteSettings{CanonicalText: true}
+
 // The Canonicalizer prefix list MUST be empty. Various implementations
 // (maybe ours?) do not appear to support non-empty prefix lists in XML C14N.
 const canonicalizerPrefixList = ""
@@ -884,6 +889,7 @@ func (req *IdpAuthnRequest) MakeAssertionEl() error {
 	var signedAssertionBuf []byte
 	{
 		doc := etree.NewDocument()
+		doc.WriteSettings = canonicalWriteSettings
 		doc.SetRoot(signedAssertionEl)
 		signedAssertionBuf, err = doc.WriteToBytes()
 		if err != nil {
@@ -928,6 +934,7 @@ func (req *IdpAuthnRequest) PostBinding() (IdpAuthnRequestForm, error) {
 	}
 
 	doc := etree.NewDocument()
+	doc.WriteSettings = canonicalWriteSettings
 	doc.SetRoot(req.ResponseEl)
 	responseBuf, err := doc.WriteToBytes()
 	if err != nil {
